@@ -262,6 +262,13 @@ theorem shared_repack_length (ρ : Nat → Nat) (hρ : ∀ a b, ρ a = ρ b → 
     (gpack t [] (GVal.rename ρ v)).1.length = (gpack t [] v).1.length :=
   grepack_length ρ hρ h0 t v hv
 
+/-- PACK is injective and prefix-free on object graphs: two graphs (each a view of some heap) with
+the same bytes are the same graph — same contents AND same addresses, hence the same aliasing. -/
+theorem shared_pack_injective (H H' : Nat → GVal) (t : GTy) (v v' : GVal) (r r' : Bytes)
+    (hv : gwt t v = true) (hv' : gwt t v' = true) (hc : GVal.cons H v) (hc' : GVal.cons H' v')
+    (h : (gpack t [] v).1 ++ r = (gpack t [] v').1 ++ r') : v = v' ∧ r = r' :=
+  gpack_inj H H' t v v' r r' hv hv' hc hc' h
+
 /-- A value-initialised object graph is a fresh target. -/
 theorem shared_default_is_fresh (t : GTy) : gfresh t (gdflt t) = true :=
   gfresh_gdflt t
